@@ -36,7 +36,7 @@ def oracle(tier, rng, deep=False):
     failures = []
     ev = nontriv = 0
     tol = 1e-10
-    nrep = 5 if tier == "quick" and not deep else 30
+    nrep = 5 if tier == "quick" and not deep else (15 if tier == "quick" else 30)   # quick + broken obligation: 3x the quick search
 
     def lasso(X, y, pen, fi, solver="AndersonCD", **kw):
         if solver == "AndersonCD":
